@@ -35,3 +35,7 @@ Theorem C11_mq_allowance : forall ts s, mq_ok s -> StronglySorted Z.le (m_ts s :
 Proof. exact mq_allowance. Qed.
 Theorem C11_mq_invariant : forall s t, mq_ok s -> m_ts s <= t -> mq_ok (fst (fst (mq_write s t))) /\ m_ts (fst (fst (mq_write s t))) = t.
 Proof. exact mq_write_ok. Qed.
+
+(* the allowance is the one the property states: 1% of the radio's 38 400 bit/s, a bucket worth 60 s of it *)
+Theorem C11_allowance_as_stated : RATE * 100 <= 38400 /\ 0 < RATE /\ CAPACITY = RATE * 60 * TICKS_PER_S.
+Proof. repeat split; vm_compute; congruence. Qed.
